@@ -409,6 +409,18 @@ def run_bound_when_added(ctx, case):
               lambda: f"{h.tag} pool={pool} history={h.hist}: the result of {pool[0]} is not the one it gives on the records it was added with "
                       f"(algorithm holds fs={getattr(a, 'fs', None)}, {np.shape(a.data) if not isinstance(a.data, list) else len(a.data)} records)")
     ctx.state("algorithm keeps the records bound when it was added")
+    # ... and a setup saved in this state comes back in this state: the algorithm with ITS records and sampling rate, the setup with the processed ones
+    h.data_sha = h.sha_data(h.setup.data)
+    fs_before = (a.fs, a.dt)
+    h.round_trip()
+    import tempfile as _tf
+    from pyoma2.functions import gen as G_
+    with _tf.TemporaryDirectory() as td:
+        G_.save_to_file(h.setup, os.path.join(td, "s.pkl"))
+        s2 = G_.load_from_file(os.path.join(td, "s.pkl"))
+    b = s2.algorithms.get("a0")
+    ctx.check(b is not None and (b.fs, b.dt) == fs_before, "persistence:loaded_algorithm_has_another_sampling_rate",
+              lambda: f"{h.tag} history={h.hist}: after save/load the algorithm holds fs, dt = {(getattr(b, 'fs', None), getattr(b, 'dt', None))}, before {fs_before}")
     ctx.nontrivial(("bound", ms, op, later, tuple(pool)))
 
 
